@@ -1633,6 +1633,12 @@ def run(rep, tier, seed):
                        'a value constraint inside WITH COMPONENTS applied to an ABSENT component is outside the domain (pyasn1 raises TypeError)',
                        'bare-Python-value encoding (asn1Spec=) is C17\'s; decoding of constructed values against size constraints is C10\'s',
                        'hash collisions between different constraint objects are ignored (set membership = structural equality)']
+    # the leaf tests (_testValue of ValueRange / ValueSize / SingleValue / PermittedAlphabet) are translated from the source on
+    # every run (gen/py2lean.py) and proved equal to the model's leaves (Props/C14 source_*_is_model); the translations are run
+    # against the real methods here
+    from harness import kernels
+    kernels.obligations(rep, ['rangeTest', 'sizeTest', 'singleValueTest', 'alphabetTest'])
+    kernels.check(rep, drv, seed, 150 if tier == 'quick' else 5000, which=('constraintLeaves',))
     run_corpus(rep, drv, rng)
     audit_sources(rep)
     known_finding_probes(rep)
